@@ -26,8 +26,9 @@ impl DuplicateEnumVariantId {
                 .filter(|var| var.id().value().parse::<u32>().is_ok()),
             |var| var.id().value(),
             |duplicate, first| {
-                max_id += 1;
-                let free_id = max_id;
+                let free_id = util::next_free_id(&mut max_id, |id| {
+                    vars.iter().any(|var| var.id().value().parse() == Ok(id))
+                });
                 validate.add_error(Self {
                     schema_name: validate.schema_name().to_owned(),
                     duplicate: duplicate.id().clone(),
